@@ -253,6 +253,20 @@ def check_packet_error_class(ctx):
                         offset_vars.add(ps[off_idx])
                         ctx.holds('R7-stack-shape', f_, '%s(%s) called with *%s' % (name, ', '.join(ps), c.args[0].value.id), 'takes a %d-tuple entry, offset at index %d' % (npos, off_idx), f_.node.lineno)
     nfmt = 0
+    # the constructor (and add_parent...) must not fail either: an error while the PacketError is
+    # being built replaces it by a bare TypeError / ValueError
+    for m_ in (init, addp):
+        env_ = {}
+        for n in ast.walk(m_.node):
+            if isinstance(n, ast.Assign) and len(n.targets) == 1 and isinstance(n.targets[0], ast.Name):
+                env_[n.targets[0].id] = n.value
+        for n in ast.walk(m_.node):
+            if isinstance(n, ast.BinOp) and isinstance(n.op, ast.Mod):
+                left = env_.get(n.left.id, n.left) if isinstance(n.left, ast.Name) else n.left
+                if not isinstance(left, ast.Constant):
+                    tmp = ast.BinOp(left=left, op=ast.Mod(), right=n.right)
+                    if _looks_like_format(tmp):
+                        ctx.violation(rule, m_, stmt_text(n)[:160], 'the format string of a percent-format is built at run time ({}): the message of the original error is part of it, and a "%" in that message (int.to_bytes: "%x format: an integer is required") makes the construction of the PacketError itself raise'.format(canon(left)[:80]), n.lineno, witness=True)
     for n in str_nodes:
         if isinstance(n, ast.BinOp) and isinstance(n.op, ast.Mod) and not isinstance(n.left, ast.Constant) and _looks_like_format(n):
             nfmt += 1
